@@ -1,5 +1,6 @@
 import Pyunicorn.Lemmas.Random
 import Pyunicorn.Lemmas.RandomB
+import Pyunicorn.Lemmas.RandomC
 /-!
 # C17 — random models and rewirings keep their documented invariants
 
@@ -354,5 +355,185 @@ theorem crossRewire_network (A : Adj) (nodes1 nodes2 : List Nat) (swaps : Nat)
   obtain ⟨s1, s2⟩ := overwrite_simple A st'.C nodes1 nodes2 nd1 nd2 dis sym lf
   exact ⟨s1, s2, fun a b h1 h2 => overwrite_untouched A st'.C _ _ a b h1 h2,
     fun i j x y hx hy => (overwrite_block A st'.C _ _ nd1 nd2 dis i j x y hx hy).1, i2, i3⟩
+
+/-- **degrees of the whole network under cross-link rewiring.**  If `C` is the cross
+block of the symmetric `A` and `C'` has the same row and column sums, then writing `C'`
+back with `overwriteAdjacency` leaves the degree of every node of the network unchanged. -/
+theorem overwrite_degrees (A C C' : Adj) (nodes1 nodes2 : List Nat) (N : Nat)
+    (nd1 : NodupIdx nodes1) (nd2 : NodupIdx nodes2) (dis : ∀ x, x ∈ nodes1 → x ∉ nodes2)
+    (b1 : ∀ x ∈ nodes1, x < N) (b2 : ∀ x ∈ nodes2, x < N)
+    (sym : ∀ a b, A a b = A b a)
+    (hC : ∀ i j x y, nodes1[i]? = some x → nodes2[j]? = some y → A x y = C i j)
+    (hrow : ∀ i, deg C' nodes2.length i = deg C nodes2.length i)
+    (hcol : ∀ j, colDeg C' nodes1.length j = colDeg C nodes1.length j) (v : Nat) :
+    deg (overwrite A C' nodes1 nodes2) N v = deg A N v := by
+  have hsub : deg (overwrite A C' nodes1 nodes2) N v - deg A N v
+      = rsum (fun w => b2i (overwrite A C' nodes1 nodes2 v w) - b2i (A v w)) N := by
+    unfold deg; rw [rsum_sub]
+  suffices h0 : rsum (fun w => b2i (overwrite A C' nodes1 nodes2 v w) - b2i (A v w)) N = 0 by omega
+  by_cases hv1 : v ∈ nodes1
+  · obtain ⟨i, hi⟩ := List.getElem?_of_mem hv1
+    rw [rsum_support nodes2 N nd2 b2 _ (fun w hw => by
+      rw [overwrite_untouched A C' _ _ v w (fun h => hw h.2) (fun h => dis v hv1 h.1)]; omega)]
+    have : rsum (fun j => b2i (overwrite A C' nodes1 nodes2 v (nodes2.getD j 0)) - b2i (A v (nodes2.getD j 0)))
+        nodes2.length = rsum (fun j => b2i (C' i j) - b2i (C i j)) nodes2.length := by
+      apply rsum_congr; intro j hj
+      have hj' : nodes2[j]? = some nodes2[j] := List.getElem?_eq_getElem hj
+      rw [getD_of_getElem? _ _ _ hj', (overwrite_block A C' _ _ nd1 nd2 dis i j v _ hi hj').1,
+        hC i j v _ hi hj']
+    rw [this, rsum_sub]
+    have := hrow i; unfold deg at this; omega
+  · by_cases hv2 : v ∈ nodes2
+    · obtain ⟨j, hj⟩ := List.getElem?_of_mem hv2
+      rw [rsum_support nodes1 N nd1 b1 _ (fun w hw => by
+        rw [overwrite_untouched A C' _ _ v w (fun h => hv1 h.1) (fun h => hw h.2)]; omega)]
+      have : rsum (fun i => b2i (overwrite A C' nodes1 nodes2 v (nodes1.getD i 0)) - b2i (A v (nodes1.getD i 0)))
+          nodes1.length = rsum (fun i => b2i (C' i j) - b2i (C i j)) nodes1.length := by
+        apply rsum_congr; intro i hi
+        have hi' : nodes1[i]? = some nodes1[i] := List.getElem?_eq_getElem hi
+        rw [getD_of_getElem? _ _ _ hi', (overwrite_block A C' _ _ nd1 nd2 dis i j _ v hi' hj).2,
+          sym, hC i j _ v hi' hj]
+      rw [this, rsum_sub]
+      have := hcol j; unfold colDeg at this; omega
+    · have : rsum (fun w => b2i (overwrite A C' nodes1 nodes2 v w) - b2i (A v w)) N
+          = rsum (fun _ => 0) N := by
+        apply rsum_congr; intro w _
+        rw [overwrite_untouched A C' _ _ v w (fun h => hv1 h.1) (fun h => hv2 h.1)]; omega
+      rw [this, rsum_zero]
+
+
+/-- **`RandomlyRewireCrossLinks` preserves every degree of the network**, for every
+stream of draws: combine `crossRun_invariants` with `overwrite_degrees`. -/
+theorem crossRewire_degrees (A : Adj) (nodes1 nodes2 : List Nat) (N swaps : Nat)
+    (draws : List (Nat × Nat)) (st st' : CrossSt)
+    (nd1 : NodupIdx nodes1) (nd2 : NodupIdx nodes2) (dis : ∀ x, x ∈ nodes1 → x ∉ nodes2)
+    (b1 : ∀ x ∈ nodes1, x < N) (b2 : ∀ x ∈ nodes2, x < N) (sym : ∀ a b, A a b = A b a)
+    (hC : ∀ i j x y, nodes1[i]? = some x → nodes2[j]? = some y → A x y = st.C i j)
+    (h : crossRun swaps draws st = some st')
+    (inv : CrossInv nodes1.length nodes2.length st.C st.links) (v : Nat) :
+    deg (overwrite A st'.C nodes1 nodes2) N v = deg A N v := by
+  obtain ⟨-, i2, i3, -, -⟩ := crossRun_invariants _ _ swaps draws st st' h inv
+  exact overwrite_degrees A st.C st'.C nodes1 nodes2 N nd1 nd2 dis b1 b2 sym hC i2 i3 v
+
+/-! ## `Network.BarabasiAlbert` (own growth loop)
+
+`BAInv N m st` (Lemmas/RandomC.lean): symmetric, loop-free, links only among the nodes
+`≤ j`, `last_child[x] = j` exactly for the nodes already linked to the new node `j`, every
+entry of `targets` is an older node, and the matrix holds `2·(m·(j−m) + it)` ones. -/
+
+/-- **every reachable state of the growth loop satisfies the invariant**, for every
+stream of target-index draws (`N > m`). -/
+theorem ba_invariants (N m : Nat) (hN : m + 1 ≤ N) (draws : List Nat) (st' : BASt)
+    (h : baRun N m draws (baInit N m) = some st') : BAInv N m st' := by
+  have gen : ∀ (draws : List Nat) (st : BASt), BAInv N m st →
+      baRun N m draws st = some st' → BAInv N m st' := by
+    intro draws
+    induction draws with
+    | nil => intro st inv h; simp only [baRun, Option.some.injEq] at h; subst h; exact inv
+    | cons d ds ih =>
+      intro st inv h
+      simp only [baRun] at h
+      cases hs : baStep N m st d with
+      | none => simp [hs] at h
+      | some st1 =>
+        simp only [hs, Option.bind_some] at h
+        exact ih st1 (baStep_inv N m st st1 d hs inv) h
+  exact gen draws _ (baInit_inv N m hN) h
+
+/-- **exactly `n_links_each · (n_nodes − n_links_each)` links**: when the outer loop has
+finished (`j = N`), the adjacency matrix is symmetric, loop-free and contains
+`2·m·(N−m)` ones — whatever the RNG produced. -/
+theorem ba_link_count (N m : Nat) (hN : m + 1 ≤ N) (draws : List Nat) (st' : BASt)
+    (h : baRun N m draws (baInit N m) = some st') (hfin : st'.j = N) :
+    total st'.A N N = 2 * ((m * (N - m) : Nat) : Int) ∧
+    (∀ a b, st'.A a b = st'.A b a) ∧ (∀ a, st'.A a a = false) := by
+  have inv := ba_invariants N m hN draws st' h
+  refine ⟨?_, inv.sym, inv.lf⟩
+  have hit : st'.it = 0 := by rcases inv.fin with h0 | h1 <;> omega
+  rw [inv.cnt, hit, hfin]; simp
+
+/-- **each new node is linked to `m` distinct older nodes**: an accepted draw always
+creates a link that was not there (the `last_child` test rejects repeated targets) and
+whose other end is an older node. -/
+theorem ba_new_link (N m : Nat) (st st' : BASt) (idx : Nat) (inv : BAInv N m st)
+    (h : baStep N m st idx = some st') (hne : st' ≠ st) :
+    ∃ i, i < st.j ∧ st.A i st.j = false ∧ st'.A i st.j = true ∧ st'.A st.j i = true := by
+  rcases baStep_cases N m st st' idx h with rfl | ⟨i, hjN, hit, hi, hlc, hc⟩
+  · exact absurd rfl hne
+  · have hij : i < st.j := inv.tg i hi
+    have hA : st.A i st.j = false := by
+      have := inv.child i; simp only [hlc, iff_false, Bool.not_eq_true] at this; exact this
+    refine ⟨i, hij, hA, ?_⟩
+    rcases hc with ⟨_, rfl⟩ | ⟨_, rfl⟩ <;> simp only [baWrap, baLink, Adj.set] <;> grind
+
+
+/-! ## non-vacuity: concrete states satisfying the hypotheses, with a rewiring that happens -/
+
+/-- two disjoint links `0—1`, `2—3` -/
+def exA : Adj := fun i j =>
+  (i == 0 && j == 1) || (i == 1 && j == 0) || (i == 2 && j == 3) || (i == 3 && j == 2)
+def exCfg (mode : GeoMode) : GeoCfg :=
+  { mode := mode, D := fun i j => if i = j then 0 else 4, eps := 1, degree := fun _ => 1 }
+
+example : GeoInv 4 exA [(0, 1), (2, 3)] := by
+  refine ⟨?_, ?_, ?_, ?_, ?_, ?_⟩
+  · intro i j; simp only [exA]; grind
+  · intro i; simp only [exA]; grind
+  · intro p hp; have : p = 0 ∨ p = 1 := by simp at hp; omega
+    rcases this with rfl | rfl <;> simp
+  · intro p hp; have : p = 0 ∨ p = 1 := by simp at hp; omega
+    rcases this with rfl | rfl <;> simp [exA]
+  · intro p q hp hq
+    have h1 : p = 0 ∨ p = 1 := by simp at hp; omega
+    have h2 : q = 0 ∨ q = 1 := by simp at hq; omega
+    rcases h1 with rfl | rfl <;> rcases h2 with rfl | rfl <;> simp [sameLink]
+  · intro i j h
+    simp only [exA, Bool.or_eq_true, Bool.and_eq_true, beq_iff_eq] at h
+    rcases h with ((h | h) | h) | h
+    · exact ⟨0, by simp, by simp [sameLink, h]⟩
+    · exact ⟨0, by simp, by simp [sameLink, h]⟩
+    · exact ⟨1, by simp, by simp [sameLink, h]⟩
+    · exact ⟨1, by simp, by simp [sameLink, h]⟩
+
+/-- the draw `(0, 1)` is accepted in every mode: `0—1, 2—3 ↦ 0—3, 2—1` -/
+example : (geoStep (exCfg .I) ⟨exA, [(0, 1), (2, 3)], 0⟩ (0, 1)).map (fun s => (s.edges, s.i))
+    = some ([(0, 3), (2, 1)], 1) := by decide
+example : (geoStep (exCfg .III) ⟨exA, [(0, 1), (2, 3)], 0⟩ (0, 1)).map (fun s => (s.edges, s.i))
+    = some ([(0, 3), (2, 1)], 1) := by decide
+/-- …and rejected draws leave the state alone (same edge twice) -/
+example : (geoStep (exCfg .II) ⟨exA, [(0, 1), (2, 3)], 0⟩ (1, 1)).map (fun s => (s.edges, s.i))
+    = some ([(0, 1), (2, 3)], 0) := by decide
+example : (geoRun (exCfg .II) 2 [(0, 0), (0, 1), (1, 1), (1, 0)] ⟨exA, [(0, 1), (2, 3)], 0⟩).map
+    (fun s => (s.edges, s.i)) = some ([(0, 1), (2, 3)], 2) := by decide
+
+/-- cross links: two draws hit the same cell, the loop counter still reaches 2 -/
+example : (crossSetRun 2 [(0, 0), (0, 0), (1, 1), (1, 0)] (fun _ _ => false) 0).2 = 2 := by decide
+
+def exC : Adj := fun i j => (i == 0 && j == 0) || (i == 1 && j == 1)
+example : CrossInv 2 2 exC [(0, 0), (1, 1)] := by
+  refine ⟨?_, ?_, ?_, ?_⟩
+  · intro p hp; have : p = 0 ∨ p = 1 := by simp at hp; omega
+    rcases this with rfl | rfl <;> simp
+  · intro p hp; have : p = 0 ∨ p = 1 := by simp at hp; omega
+    rcases this with rfl | rfl <;> simp [exC]
+  · intro p q hp hq
+    have h1 : p = 0 ∨ p = 1 := by simp at hp; omega
+    have h2 : q = 0 ∨ q = 1 := by simp at hq; omega
+    rcases h1 with rfl | rfl <;> rcases h2 with rfl | rfl <;> simp
+  · intro a b h
+    simp only [exC, Bool.or_eq_true, Bool.and_eq_true, beq_iff_eq] at h
+    rcases h with h | h
+    · exact ⟨0, by simp, by simp [h]⟩
+    · exact ⟨1, by simp, by simp [h]⟩
+example : (crossStep ⟨exC, [(0, 0), (1, 1)], 0⟩ (0, 1)).map (fun s => (s.links, s.done))
+    = some ([(0, 1), (1, 0)], 1) := by decide
+example : NodupIdx [0, 3, 5] := by
+  intro i i' x h1 h2
+  rcases i with _ | _ | _ | i <;> rcases i' with _ | _ | _ | i' <;> simp at h1 h2 ⊢ <;> omega
+
+/-- Barabasi-Albert, `N = 5`, `m = 2`: one rejected draw (repeated target), run completes -/
+example : (baRun 5 2 [0, 0, 3, 1, 5] (baInit 5 2)).map (fun s => (s.j, s.it)) = some (5, 0) := by
+  decide
+
 
 end Pyunicorn.Random
